@@ -119,6 +119,7 @@ class Session:
         return Outcome("ok", v)
 
     def call_trait(self, trait, method, *args):
+        self.env.begin_op("%s::%s" % (trait, method))
         try:
             v = self.I.call_trait_method(trait, method, list(args))
         except RustPanic as e:
@@ -135,10 +136,14 @@ class Session:
         return Outcome("ok", v)
 
     def drop(self, v):
+        self.env.begin_op("drop")
         try:
             self.I.drop_value(v)
         except RustPanic as e:
             return Outcome("panic", None, e.msg)
+        except ProcessCrash as e:
+            self.env.crashed = True
+            return Outcome("crash", None, str(e))
         return Outcome("ok", UNIT)
 
 
